@@ -65,10 +65,12 @@ def sort_probe(rng):
 def gen_cases(run):
     rng = run.rng
     quick = run.tier == "quick"
-    n_ast = 460 if quick else 8000
+    n_ast = 300 if quick else 8000
     n_prog = 90 if quick else 1500
     g = X.Gen(rng, "all")
     cases = list(CORPUS) + sort_probe(rng)
+    for e in X.builtin_sweep(rng, 4 if quick else 40):
+        cases.append((e, [X.gen_event(rng) for _ in range(3)]))
     base = len(cases)
     while len(cases) < base + n_ast:
         e = g.expr(rng.range(1, 3) if rng.chance(3, 4) else 4)
